@@ -341,8 +341,20 @@ impl LangGen {
             _ => {
                 // named let loop producing an Int, bound for the body
                 self.tag("named-let");
-                let lp = self.fresh("loop");
-                let n0 = self.rng.range(0, 7);
+                // the loop tag is in scope in the loop body only: half of the time it takes the name of an integer
+                // variable of the enclosing scope, and the initial value of the counter is computed from that variable
+                let outer: Vec<String> = cx
+                    .iter()
+                    .filter(|v| v.ty == Ty::Int && !v.name.contains('(') && !v.name.contains(' '))
+                    .map(|v| v.name.clone())
+                    .collect();
+                let (lp, n0) = if !outer.is_empty() && self.rng.chance(1, 2) {
+                    self.tag("named-let-shadowing-tag");
+                    let x = self.rng.pick(&outer).clone();
+                    (x.clone(), format!("(modulo (abs {}) 7)", x))
+                } else {
+                    (self.fresh("loop"), format!("{}", self.rng.range(0, 7)))
+                };
                 let acc0 = self.expr(Ty::Int, cx, 0);
                 let v = self.fresh("v");
                 let mut cx3 = cx.to_vec();
